@@ -272,10 +272,91 @@ def gen_events_quad(rng, region, n, frac_out):
 
 
 # ----------------------------------------------------------------------------------------------- implementation
+# ---- round 7: the VARIANT under which the objects of one case are used (case["variant"], replayable):
+#   region_copy  (h)  the region is replaced by copy.copy / copy.deepcopy / pickle round trip / to_dict -> from_dict BEFORE gridding
+#   catalog_copy (h)  every catalog (holding the region) is deep-copied / pickled / shallow-copied before its gridding call
+#   subclass     (j)  catalogs of a USER SUBCLASS that stores its columns negated and overrides the documented accessors
+#                     get_longitudes / get_latitudes / get_magnitudes consistently: the accessors are the source of truth
+#   numeric      (k)  the calls run under numpy.errstate(divide='raise', invalid='raise') and / or a low-precision decimal context
+_V = {}
+COPY_UNSUPPORTED = {}        # (class name, form) -> reason, probed on the tree under test: that form is left out for that object
+
+
+def copy_obj(x, form):
+    """the image of `x` under one of the copy forms; None when the tree under test cannot copy this object that way"""
+    import copy
+    import pickle
+    key = (type(x).__name__, form)
+    if key in COPY_UNSUPPORTED:
+        return None
+    try:
+        if form == "copy":
+            return copy.copy(x)
+        if form == "deepcopy":
+            return copy.deepcopy(x)
+        if form == "pickle":
+            return pickle.loads(pickle.dumps(x))
+        if form == "dict":
+            y = type(x).from_dict(x.to_dict())
+            if getattr(x, "magnitudes", None) is not None:      # to_dict drops the bound magnitudes (documented exclusion): re-bound
+                y.magnitudes = x.magnitudes
+            return y
+    except Exception as ex:
+        COPY_UNSUPPORTED[key] = f"{type(ex).__name__}: {ex}"[:120]
+        return None
+    raise ValueError(form)
+
+
+_NEG_CLS = []
+
+
+def _negated_class():
+    if not _NEG_CLS:
+        from csep.core.catalogs import CSEPCatalog
+
+        class NegatedColumnsCatalog(CSEPCatalog):
+            """a user catalog whose file stores longitude, latitude and magnitude with the opposite sign; the documented accessors
+            return the real values (negation is exact in binary64)"""
+
+            def get_longitudes(self):
+                return -self.catalog['longitude']
+
+            def get_latitudes(self):
+                return -self.catalog['latitude']
+
+            def get_magnitudes(self):
+                return -self.catalog['magnitude']
+        _NEG_CLS.append(NegatedColumnsCatalog)
+    return _NEG_CLS[0]
+
+
 def _cat(region, evs):
     from csep.core.catalogs import CSEPCatalog
-    data = [(str(k), 1000 * k, float(lat), float(lon), 10.0, float(m)) for k, (lon, lat, m) in enumerate(evs)]
-    return CSEPCatalog(data=data, region=region)
+    if _V.get("subclass") == "negated":
+        data = [(str(k), 1000 * k, -float(lat), -float(lon), 10.0, -float(m)) for k, (lon, lat, m) in enumerate(evs)]
+        cat = _negated_class()(data=data, region=region)
+    else:
+        data = [(str(k), 1000 * k, float(lat), float(lon), 10.0, float(m)) for k, (lon, lat, m) in enumerate(evs)]
+        cat = CSEPCatalog(data=data, region=region)
+    if _V.get("catalog_copy"):
+        c2 = copy_obj(cat, _V["catalog_copy"])
+        cat = cat if c2 is None else c2
+    return cat
+
+
+def gen_variant(rng, cart):
+    """about a third of the random cases are run under one (sometimes two) of the round-7 variants"""
+    v = {}
+    k = rng.random()
+    if k < 0.16:
+        v["region_copy"] = rng.choice(["copy", "deepcopy", "pickle"] + (["dict"] if cart else []))
+    elif k < 0.24:
+        v["catalog_copy"] = rng.choice(["deepcopy", "pickle", "copy"])
+    elif k < 0.30:
+        v["subclass"] = "negated"
+    if rng.random() < 0.10:
+        v["numeric"] = rng.choice(["errstate", "decimal", "both"])
+    return v
 
 
 def _ints(a):
@@ -292,11 +373,20 @@ def _call(f):
     """canonical output: the integer array, or "E" = the call REJECTED the input. The property says "rejects", not with which
     exception class or message: every exception counts as a rejection (classes are recorded in the histogram, never judged);
     where the property demands a result, "E" differs from that result and is reported"""
-    try:
-        return _ints(f())
-    except Exception as e:
-        REJECTION_CLASSES[type(e).__name__] = REJECTION_CLASSES.get(type(e).__name__, 0) + 1
-        return "E"
+    import contextlib
+    import decimal
+    with contextlib.ExitStack() as st:
+        num = _V.get("numeric")
+        if num in ("errstate", "both"):
+            st.enter_context(numpy.errstate(divide="raise", invalid="raise"))
+        if num in ("decimal", "both"):
+            ctx = st.enter_context(decimal.localcontext())
+            ctx.prec = 3
+        try:
+            return _ints(f())
+        except Exception as e:
+            REJECTION_CLASSES[type(e).__name__] = REJECTION_CLASSES.get(type(e).__name__, 0) + 1
+            return "E"
 
 
 def impl(region, evs, mag_bins):
@@ -369,6 +459,22 @@ def check_case(run, drv, pending, case, region, kind, cell_of, ncell, edges, evs
                poly_cells=None):
     mag_bins = None if mode == "bound" else (list(map(float, edges)) if mode == "list" else numpy.asarray(edges, dtype=float))
     base = dict(case)
+    _V.clear()
+    _V.update(case.get("variant") or {})
+    for k_, v_ in _V.items():
+        run.count(f"variant:{k_}:{v_}")
+    if _V.get("region_copy") == "dict" and getattr(region, "poly_mask", None) is not None and \
+            any(int(f_) != 1 for f_ in numpy.asarray(region.poly_mask).ravel()):
+        # the dict form of the unchanged tree carries no mask flags (to_dict writes name, dh, polygons, class_id): the image of a MASKED
+        # lattice is another region; that form is left out for masked lattices (notes/C03.md, observation W-C03-3)
+        run.count("variant:region_copy:dict:left-out-for-masked-lattice")
+        _V.pop("region_copy")
+    if _V.get("region_copy"):
+        r2 = copy_obj(region, _V["region_copy"])
+        if r2 is None:
+            run.count(f"variant:region_copy:{_V['region_copy']}:unsupported-by-the-tree-for-{type(region).__name__}")
+        else:
+            region = r2
     try:
         got = impl(region, evs, mag_bins)
     except Exception as ex:
@@ -417,8 +523,9 @@ def check_case(run, drv, pending, case, region, kind, cell_of, ncell, edges, evs
         if [1 if v > 0 else 0 for v in sc] != sep:
             problems.append("occupancy map is not 1 exactly where the spatial count is positive")
     try:
-        fl = impl_filter(region, evs, numpy.asarray(edges, dtype=float))
-        if fl != mc:
+        # (the range filters act on the stored columns: not comparable for the subclass that stores them negated)
+        fl = None if _V.get("subclass") else impl_filter(region, evs, numpy.asarray(edges, dtype=float))
+        if fl is not None and fl != mc:
             problems.append(f"magnitude_counts {mc} != events kept by the equivalent range filters {fl}")
     except Exception as ex:
         problems.append(f"filter raised {type(ex).__name__}: {ex}")
@@ -445,6 +552,7 @@ def check_case(run, drv, pending, case, region, kind, cell_of, ncell, edges, evs
             q3 = drv.ask(f"c03_quadkeys {','.join(keys)} {c17.pts_arg(units)} {mags} {ed}")
     q2 = drv.ask(f"c03_filter {ed} {mags}")
     pending.append((base, q, q2, got, fl, q3, alt))
+    _V.clear()
     if helpers is not None:
         hdrv, hpend = helpers
         if kind == "cart":
@@ -542,6 +650,9 @@ def one_random_case(run, drv, pending, rng, tier, spec_override=None, helpers=No
         evs = [(p[0], p[1], m) for p, m in zip(locs, mags)]
         case = dict(kind="cart", region=spec, edges=[repr(float(x)) for x in edges], mode=mode,
                     events=[[repr(a), repr(b), repr(c)] for a, b, c in evs], rid=hash(c01.region_key(spec)))
+        vv = gen_variant(rng, True)
+        if vv:
+            case["variant"] = vv
         check_case(run, drv, pending, case, region, "cart", cell_of, len(cells), edges, evs, mode,
                    cart_args_of(region, cells, flags), helpers=helpers, poly_cells=cells)
     else:
@@ -561,6 +672,9 @@ def one_random_case(run, drv, pending, rng, tier, spec_override=None, helpers=No
         run.count("quad:grid-" + name.rstrip("0123456789"))
         case = dict(kind="quad", quadkeys=keys, edges=[repr(float(x)) for x in edges], mode=mode, unbound=bound is None,
                     events=[[repr(a), repr(b), repr(c)] for a, b, c in evs], rid=hash(tuple(keys)))
+        vv = gen_variant(rng, False)
+        if vv:
+            case["variant"] = vv
         check_case(run, drv, pending, case, region, "quad", quad_cell_of(_qt_bounds(region)), len(keys), edges, evs, mode,
                    helpers=helpers)
 
@@ -856,6 +970,7 @@ def run(run, rng, tier):
     hp.flush(run, hdrv, hpend)
     lap("random-cases")
     run.extra["rejection_exception_classes"] = dict(REJECTION_CLASSES)
+    run.extra["copy_forms_unsupported_by_the_tree"] = {f"{k[0]}:{k[1]}": v for k, v in COPY_UNSUPPORTED.items()}
 
 
 def replay(run, payload):
